@@ -134,3 +134,10 @@ Ltac to_bool :=
 
 Lemma eqb_true_iff_l (a b : bool) : Bool.eqb a b = true -> (a = true <-> b = true).
 Proof. destruct a, b; simpl; intuition congruence. Qed.
+
+(* list facts shared by the packet proofs *)
+Lemma firstn_app_exact {A} (a b : list A) : firstn (length a) (a ++ b) = a.
+Proof. rewrite firstn_app, Nat.sub_diag, firstn_all. cbn [firstn]. apply app_nil_r. Qed.
+
+Lemma skipn_app_exact {A} (a b : list A) : skipn (length a) (a ++ b) = b.
+Proof. rewrite skipn_app, Nat.sub_diag, skipn_all. reflexivity. Qed.
